@@ -96,6 +96,7 @@ type env struct {
 	top    string // name of the exported method under evaluation
 	reach  map[*ssa.BasicBlock]bool
 	memo   map[ssa.Value]Val
+	opaqueResult func(callee *ssa.Function) bool // calls whose result is kept opaque (not inlined)
 	facts  map[ssa.Value]bool // string value -> known empty (true) / known non-empty (false)
 	rewriting map[ssa.Value]bool
 }
@@ -889,11 +890,15 @@ func (x *Evaluator) evalLoad(v *ssa.UnOp, e *env, c *evalCtx) Val {
 // unreachable are ignored; if a store in the load's own block precedes the load
 // (or a store dominates it with no other store between), only it counts.
 func (x *Evaluator) evalCell(a *ssa.Alloc, at ssa.Instruction, e *env, c *evalCtx) Val {
-	if c.busy[a] {
+	var busyKey ssa.Value = a
+	if u, ok := at.(*ssa.UnOp); ok && u != nil {
+		busyKey = u
+	}
+	if c.busy[busyKey] {
 		return selfRef{a}
 	}
-	c.busy[a] = true
-	defer delete(c.busy, a)
+	c.busy[busyKey] = true
+	defer delete(c.busy, busyKey)
 	refs := a.Referrers()
 	if refs == nil {
 		return OpaqueV{"cell"}
@@ -915,38 +920,56 @@ func (x *Evaluator) evalCell(a *ssa.Alloc, at ssa.Instruction, e *env, c *evalCt
 	if len(stores) == 0 {
 		return x.symbolic(a.Type().Underlying().(*types.Pointer).Elem(), "cell:"+a.Comment)
 	}
-	// same-block precision
+	// reaching definitions: stores that can reach the load without passing another store
 	if at != nil && at.Parent() == a.Parent() {
-		var last *ssa.Store
-		for _, ins := range at.Block().Instrs {
-			if ins == at {
+		isStore := func(ins ssa.Instruction) *ssa.Store {
+			if st, ok := ins.(*ssa.Store); ok && st.Addr == a {
+				return st
+			}
+			return nil
+		}
+		var rs []*ssa.Store
+		found := false
+		instrs := at.Block().Instrs
+		for i := instrIndex(at) - 1; i >= 0; i-- {
+			if st := isStore(instrs[i]); st != nil {
+				rs = append(rs, st)
+				found = true
 				break
 			}
-			if st, ok := ins.(*ssa.Store); ok && st.Addr == a {
-				last = st
-			}
 		}
-		if last != nil {
-			return x.evalC(last.Val, e, c)
-		}
-		// a unique store that dominates the load and no other store can intervene
-		var doms []*ssa.Store
-		for _, st := range stores {
-			if st.Block().Dominates(at.Block()) {
-				doms = append(doms, st)
-			}
-		}
-		if len(doms) == len(stores) && len(doms) > 0 {
-			// all stores dominate: the latest one in dominance order wins
-			best := doms[0]
-			for _, st := range doms[1:] {
-				if best.Block().Dominates(st.Block()) {
-					if best.Block() != st.Block() || instrIndex(st) > instrIndex(best) {
-						best = st
+		if !found {
+			visited := map[*ssa.BasicBlock]bool{}
+			var back func(b *ssa.BasicBlock)
+			back = func(b *ssa.BasicBlock) {
+				for _, p := range b.Preds {
+					if visited[p] {
+						continue
+					}
+					visited[p] = true
+					if len(reach) > 0 && !reach[p] {
+						continue
+					}
+					if e.fn == a.Parent() && !x.edgeLive(p, b, e) {
+						continue
+					}
+					hit := false
+					for i := len(p.Instrs) - 1; i >= 0; i-- {
+						if st := isStore(p.Instrs[i]); st != nil {
+							rs = append(rs, st)
+							hit = true
+							break
+						}
+					}
+					if !hit {
+						back(p)
 					}
 				}
 			}
-			return x.evalC(best.Val, e, c)
+			back(at.Block())
+		}
+		if len(rs) > 0 {
+			stores = rs
 		}
 	}
 	var ts []Tmpl
@@ -1307,11 +1330,7 @@ func (x *Evaluator) evalCompare(v *ssa.BinOp, e *env, c *evalCtx) Val {
 				}
 			}
 			d := "len(" + t.String() + ")" + v.Op.String() + fmt.Sprint(k)
-			data := ""
-			if hs := t.Holes(); len(hs) > 0 {
-				data = hs[0].Origin
-			}
-			return BoolV{Desc: d, Data: data}
+			return BoolV{Desc: d}
 		}
 		if lv.LenLst != nil && rv.Const != nil && lv.LenLst.IsFinite {
 			n := int64(len(lv.LenLst.Finite))
